@@ -109,7 +109,7 @@ PROPS = {
         'assumptions': ['stdout / returned strings only'],
     },
     'C10': {
-        'lean': ['Netpol.Properties.C10'],
+        'lean': ['Netpol.Properties.C10', 'Netpol.Tie.Parser'],
         'families': [('ingress', 800, 30000), ('renderi', 250, 8000)],
         'accept_props': ['C10'],
         'rule': 'renderi family: the same world written a second way (no metadata.namespace where it is `default`, for every kind including Routes and Ingresses; kind List; block YAML) must give the same ingress-controller lines. ingress family: worlds with 1-3 Services (selectors from workload labels, named/numbered ports and targetPorts), 0-2 Ingresses (default backend, rule paths; by number / name / '
@@ -118,7 +118,7 @@ PROPS = {
         'assumptions': ['service port numbers and names unique within a Service', 'the input does not itself define the namespace ingress-controller-ns (the property speaks of a namespace unknown to the input; with a Namespace manifest of that name the tool evaluates the fake pod as a member of the real namespace, with its labels)'],
     },
     'C12': {
-        'lean': ['Netpol.Properties.C12', 'Netpol.Tie.C12'],
+        'lean': ['Netpol.Properties.C12', 'Netpol.Tie.C12', 'Netpol.Tie.Parser'],
         'families': [('mut', 1500, 60000), ('render', 300, 8000), ('renderi', 150, 4000)],
         'accept_props': ['C12'],
         'shard_min': 100,
